@@ -1,5 +1,6 @@
 import Frp.Driver.Proto
 import Frp.Props.C11
+import Frp.Engines.PoolEndOps
 /-
   Driver engine "pool" (C11): replays the harness trace (harness/eng_pool.go) on the small-step
   models `Frp.Pool` (one state per session) and `Frp.Handoff` with the switch `Pool.current`.
@@ -55,6 +56,7 @@ structure PoolState where
   hs : Handoff.St := {}
   lsnDom : List (Nat × Str) := []          -- open listeners: id ↦ lower-cased domain
   crashed : Bool := false
+  pe : PoolEndEng.PEState := {}               -- the sessions of the pool-teardown part (eng_pool_end.go)
 
 def dropS (s : String) (n : Nat) : String := String.ofList (s.toList.drop n)
 
@@ -557,6 +559,11 @@ def poolStep (ps : PoolState) (tok : List String) (impl : String) : PoolState ×
     match starved with
     | true => (ps, .skip "read loop parked in Send")
     | false =>
+      if (tok.headD "").startsWith "pe" then
+        match PoolEndEng.peOp ps.pe tok impl with
+        | some (pe', m, p) => ({ ps with pe := pe' }, verdictOf m impl p)
+        | none => (ps, .bad "op")
+      else
       match poolOp ps tok impl with
       | some (ps', m, p) => (ps', verdictOf m impl p)
       | none => (ps, .bad "op")
